@@ -74,7 +74,7 @@ class History:
         s.S = s.L.login(s.label); assert s.S is not None, 'user login failed'
         slot = s.L.slot_of(s.label); s.S2 = s.x().call('C_OpenSession', slot=slot)['h']
     # ---- model maintenance
-    def adopt(s, o, h, tmpl, call, base=None):
+    def adopt(s, o, h, tmpl, call, base=None, src_token=None):
         """after a successful call: snapshot through the API; the model is the snapshot (+ what the template promised)"""
         o.h = h; promised = persist.template_api_form(s.ck, tmpl)
         try: snap = s.L.read(s.S, h)
@@ -93,13 +93,9 @@ class History:
             want = dict(base); want.update({a: v for a, v in promised.items() if snap.get(a) != UNAVAILABLE})
             d = persist.diff_attrs(want, snap)
             if d:
-                # wholesale loss (nothing of the original's own byte strings arrived) or single attributes?
-                own = [a for a, v in base.items() if isinstance(v, bytes) and len(v) > 1 and a not in promised and a not in ('CKA_CLASS', 'CKA_KEY_TYPE', 'CKA_CERTIFICATE_TYPE', 'CKA_VALUE_LEN', 'CKA_KEY_GEN_MECHANISM', 'CKA_MODULUS_BITS')
-                       and len(v) != 8]
-                if own and all(snap.get(a) != base[a] for a in own):
-                    s.V(f'{call}|{s.backend}|attributes-not-copied', 'C_CopyObject returned CKR_OK but the new object has none of the attribute values of the original', cls=o.cls, attrs=[(a, W(w), W(g)) for a, w, g in d][:12])
-                else:
-                    for a, w, g in d: s.V(f'{call}|{s.backend},{a}|not-copied', f'C_CopyObject returned CKR_OK but {a} of the copy differs from the original', cls=o.cls, original=W(w), copy=W(g))
+                # one key per back-end: a copy either carries the attributes of the original or it does not (the witness names them)
+                s.V(f'{call}|{s.backend}|attributes-not-copied', 'C_CopyObject returned CKR_OK but attribute values of the original are missing or different in the new object', cls=o.cls, source='token' if src_token else 'session',
+                    attrs=[(a, W(w), W(g)) for a, w, g in d][:12])
                 o.alive = False; o.h = None; o.broken = True      # its later fate says nothing new
         o.exp = snap
     # ---- operations
@@ -139,7 +135,7 @@ class History:
         r = s.x().call('C_CopyObject', s=s.S, o=src.h, tmpl=s.T(tmpl)); s.part.count('calls_copy')
         if r['rv'] != 0: s.part.count('refused_copy'); s.part.observe('refused C_CopyObject (no verdict)', {'class': src.cls, 'rv': r['rvname'], 'backend': s.backend}); return
         o = Obj(tag, src.cls, token, private, 'C_CopyObject', owner=s.S); o.hidden = dict(src.hidden); o.kinds = dict(src.kinds); o.writer = {a: 'C_CopyObject' for a in src.exp}; s.M[tag] = o
-        s.adopt(o, r['h'], tmpl, 'C_CopyObject', base=src.exp)
+        s.adopt(o, r['h'], tmpl, 'C_CopyObject', base=src.exp, src_token=src.token)
     def op_set(s):
         rnd = s.rnd; o = s.pick(lambda o: o.token and o.cls in s.gen.table and o.exp.get('CKA_MODIFIABLE') == b'\x01')
         if o is None: return
@@ -186,7 +182,7 @@ class History:
             for p in probs:
                 if mo is not None and mo.alive and not mo.broken: s.V(f'decoder|{s.backend}|private-value-does-not-decrypt', p, where=where)
                 else: part.observe('stored object outside the model does not decrypt (left by a broken copy or a refused call)', {'backend': s.backend, 'problem': p[:80]})
-            if tg in disk: s.V(f'decoder|{s.backend}|duplicate-object-on-disk', 'two stored objects carry the same tag', tag=tg)
+            if tg is not None and tg in disk: s.V(f'decoder|{s.backend}|duplicate-object-on-disk', 'two stored objects carry the same tag', tag=tg)
             disk[tg] = v
         for tag, o in s.M.items():
             if not o.token:
@@ -215,7 +211,7 @@ class History:
                 else: s.V(f'{o.origin}|{s.backend},{o.cls}|unreadable-after-restart', 'an object cannot be read back after a restart: %s' % e, restart=kind)
                 by[tg] = (h, None); continue
             tg = tag_of(attrs)
-            if tg in by: s.V(f'C_FindObjects|{s.backend}|duplicate-object-after-restart', 'the same object is returned twice after a restart', tag=tg)
+            if tg is not None and tg in by: s.V(f'C_FindObjects|{s.backend}|duplicate-object-after-restart', 'the same object is returned twice after a restart', tag=tg)
             by[tg] = (h, attrs)
         for tag, o in s.M.items():
             if o.token and o.alive:
